@@ -19,7 +19,13 @@ static cat_return_state policy(struct hcall *h)
         else if (h->kind != K_RUN) { trace_h = hash_bytes(h->data, strnlen((char *)h->data, h->max), hash_u64((uint64_t)(h->ci * 8 + h->kind + h->fsm * 4), trace_h)); return pr_n(&H, 4) ? CAT_RETURN_STATE_DATA_OK : CAT_RETURN_STATE_OK; }
         return CAT_RETURN_STATE_OK;
 }
-static int vpolicy(int ci, int vi, int dir, size_t ws) { trace_h = hash_u64((uint64_t)(ci * 1000 + vi * 10 + dir) + ws * 100000, trace_h); return 0; }
+static unsigned vfail_pct;
+static int vpolicy(int ci, int vi, int dir, size_t ws)
+{
+        trace_h = hash_u64((uint64_t)(ci * 1000 + vi * 10 + dir) + ws * 100000, trace_h);
+        if (pr_pct(&H, vfail_pct)) { CNT("variable_callbacks_failing"); return dir ? 1 : -1; }      /* a hook that rejects (same decisions in both runs of a twin) */
+        return 0;
+}
 static void check_ro(const char *when)
 {
         const uint8_t *p = ro_snap;
@@ -110,6 +116,15 @@ void chk_run_case(uint64_t seed, long c, bool is_sweep)
         EP.p_garbage_line = 2; EP.p_long_line = 3; EP.max_cmds = 8;
         eng_gen_table();
         bool has_ro = false, has_wo = false;
+        vfail_pct = chance(40) ? 15 : 0;
+        if (W.ncmds >= 2 && chance(30)) {      /* two commands that are views of one variable table (same var pointer, different var_num): what one offers says nothing about the other */
+                for (unsigned k = 0, n = 1 + rn(2); k < n; k++) {
+                        struct cat_command *a = W.cmd[rn(W.ncmds)], *b = W.cmd[rn(W.ncmds)];
+                        if (a == b || a->var_num < 2) continue;
+                        b->var = a->var; b->var_num = 1 + rn((unsigned)a->var_num - 1);
+                        CNT("commands_sharing_a_variable_table");
+                }
+        }
         for (size_t i = 0; i < W.ncmds; i++) {
                 struct cat_command *cm = W.cmd[i];
                 if (chance(50)) cm->read = NULL;
